@@ -1170,6 +1170,14 @@ func supGiveUp(c *Ctx) {
 		for k := 0; k < 3+g.Intn(8) && s.status == 0 && !s.violated; k++ {
 			s.settle()
 			s.checkSettled()
+			if g.Intn(5) == 0 {
+				// a disabled spec: the deaths of its children (the exit DisableChild sends them included) are not failures
+				// and must not count towards the limit
+				s.api("disable", cfg.Children[g.Intn(len(cfg.Children))].Name, 0)
+				r.Count("sup.give-up.disable")
+				s.settle()
+				s.checkSettled()
+			}
 			s.episodeSingle()
 		}
 		seqs = append(seqs, supSeq{s.run.lines, s.run.obs, cfg, "give-up"})
